@@ -358,8 +358,90 @@ def charge_helpers(chk, F):
                                 "GlobalAlloc::alloc and leaves its charge behind")
                 elif op == "fetch_update":
                     verify_helper(chk, F, fn, bb, t)
+                elif op in ("compare_exchange", "compare_exchange_weak"):
+                    verify_cas_helper(chk, F, fn, bb, t)
     if not n_add and not HELPERS:
         raise AnchorLost("no operation that increases Alloc.used was found")
+
+
+def verify_cas_helper(chk, F, fn, bb, t):
+    """The loop fetch_update is made of, written out: `used.compare_exchange[_weak](seen, new, ..)` installs `new` only while the
+    counter still holds `seen`.  It is the checked charge when (1) `new` is the Some payload of `checked_add(seen, amount)` for the
+    very `seen` that is compared (no other definition of it in between), (2) the exchange lies behind `new <= limit`, (3) the
+    function returns Some(new) / Ok(new) only behind the Ok edge of this exchange and None / Err(..) everywhere else, and (4) the
+    exchange is the only operation of the function that changes the counter."""
+    from facts import ap_str, ap_match, place_of
+    fk = "%s::%s" % (fn.crate, fn.path)
+    why = ""
+    at = (bb, None)
+    cur, new = fn.apath(t["args"][1], at=at), fn.apath(t["args"][2], at=at)
+    r = new[0]
+    ca_bb = None
+    amount_kind = None
+    if not (r[0] == "call" and r[1].endswith("::checked_add") and tuple(new[1]) in (("as Some", "0"),) and len(r[2]) == 2):
+        why = "the value installed is %s, not the Some payload of a checked_add" % ap_str(new)[:80]
+    else:
+        ca_bb = r[3]
+        a0, a1 = r[2]
+        same = lambda x: x == cur and cur[0][0] in ("local", "call")        # the very local / the very load that is compared
+        other = a1 if same(a0) else (a0 if same(a1) else None)
+        if other is None:
+            why = "the checked sum is not computed from the value that is compared (%s vs %s)" % (ap_str(a0)[:40], ap_str(cur)[:40])
+        elif other == (("arg", 2), ()):
+            amount_kind = "arg"
+        elif other[0][0] == "call" and other[0][1].endswith("Layout::size") and not other[1] and "arg2" in ap_str(other):
+            amount_kind = "size"
+        else:
+            why = "the amount added is %s, not the helper's parameter" % ap_str(other)[:60]
+    if not why and cur[0][0] == "local":
+        # the compared value has several definitions (the first load, what a failed exchange reported): none may lie between the
+        # sum and the exchange, and each is a read of the counter
+        for d in fn.defs().get(cur[0][1], []):
+            dbb = d[1]
+            if fn.dominates(ca_bb, dbb) and not fn.dominates(bb, dbb) and dbb != ca_bb:
+                why = "the compared value is redefined between the checked sum and the exchange (%s)" % fn.where(dbb)
+    if not why:
+        gs = [fn.guard_desc(g) for g in fn.guards_of(bb)]
+        some = any(d[0] == "variant" and d[3] == "Some" and "checked_add" in ap_str(d[1]) for d in gs)
+        lim = False
+        for d in gs:
+            if d[0] == "bool" and d[1][0][0] == "binop" and d[1][0][1] in ("Le", "Ge") and not d[1][1]:
+                x, y = d[1][0][2], d[1][0][3]
+                if d[1][0][1] == "Ge":
+                    x, y = y, x
+                if d[2] is True and ap_str(x) == ap_str(new) and y[0][0] == "call" and y[0][1] == ATOMIC + "load" and ap_str(y[0][2][0]).endswith(".limit"):
+                    lim = True
+        if not (some and lim):
+            why = "the exchange is not behind `checked_add(..) is Some` and `new <= limit.load()` (guards: %s)" % [ap_str(d[1])[:50] for d in gs][:4]
+    if not why:
+        n_ret = 0
+        for i, j, st in fn.stmts():
+            if st["k"] != "assign" or st["place"]["l"] != 0 or st["place"]["p"] or st["rv"].get("k") != "agg":
+                continue
+            var = st["rv"].get("variant")
+            if var in ("Some", "Ok"):
+                n_ret += 1
+                v = fn.apath(st["rv"]["ops"][0], at=(i, j))
+                behind_ok = any(d[0] == "variant" and d[3] == "Ok" and d[1][0][0] == "call" and d[1][0][3] == bb
+                                for d in (fn.guard_desc(g) for g in fn.guards_of(i)))
+                if not (ap_str(v) == ap_str(new) and v[0][0] == "call" and behind_ok):      # strictly the same value, not "may be the same"
+                    why = "the helper returns %s(%s) %s" % (var, ap_str(v)[:50], "which is not the installed value" if behind_ok else "off the Ok edge of the exchange")
+            elif var not in ("None", "Err"):
+                why = "the helper's result is %s" % var
+        if not why and n_ret == 0:
+            why = "the helper never reports success"
+    if not why:
+        others = [t2["callee"]["path"].split("::")[-1] for b2, t2 in fn.calls() if "callee" in t2 and t2["callee"]["path"].startswith(ATOMIC) and t2["args"]
+                  and ap_str(fn.apath(t2["args"][0])).endswith(".used") and b2 != bb and not t2["callee"]["path"].endswith("::load")]
+        if others:
+            why = "the function has other operations that change the counter: %s" % others
+    success = "Ok" if str(fn.locals[0]).startswith("core::result::Result") else "Some"
+    chk.decide(not why, "charge-cannot-wrap", fk, "checked-charge", fn.where(bb),
+               "used grows only through compare_exchange(seen, checked_add(seen, n)) behind `<= limit`: the counter is never moved to an unchecked "
+               "value, a refused request leaves it untouched; the helper returns the new usage exactly when the exchange succeeded",
+               "the compare-exchange that charges a request is not the checked form: %s" % why)
+    if not why:
+        HELPERS[fn.path] = {"success": success, "amount": amount_kind}
 
 
 def verify_helper(chk, F, fn, bb, t):
@@ -453,7 +535,7 @@ def verify_helper(chk, F, fn, bb, t):
 
 
 def rmw_only(chk, F):
-    allowed = {"used": {"load", "fetch_add", "fetch_sub", "fetch_update"}, "max": {"load", "store", "fetch_max"},
+    allowed = {"used": {"load", "fetch_add", "fetch_sub", "fetch_update", "compare_exchange", "compare_exchange_weak"}, "max": {"load", "store", "fetch_max"},
                "limit": {"load", "store"}}
     n = 0
     for crate, fns in F.by_crate.items():
